@@ -256,19 +256,19 @@ Fixpoint spec_P (shut disc : list N) (sb : option (list N)) (prev : obs) (steps 
 
 
 (* the clauses of step_P that speak about the pool only (not about the environment's process list) *)
-Definition pool_clause (shut : list N) (prev : obs) (o : op) (ob : obs) : Prop :=
+Definition pool_clause (shut : list N) (sb : option (list N)) (prev : obs) (o : op) (ob : obs) : Prop :=
   match o with
   | OStart it u => ob_ret ob = 0%N \/ (find_inst (ob_ret ob - 1) (ob_inst prev) = Some (2%N, 0%N) /\ ~ In (ob_ret ob - 1)%N shut)
   | OCreate _ _ oc => oc = 0%N \/ ob_unalloc ob = ob_unalloc prev
+  | OSyncEnd => forall b, sb = Some b -> forall i, In i (inst_ids prev) -> ~ In i b -> In i (inst_ids ob)
   | _ => True
   end.
 
-Fixpoint pool_clauses (shut : list N) (prev : obs) (steps : list (op * obs)) : Prop :=
+Fixpoint pool_clauses (shut : list N) (sb : option (list N)) (prev : obs) (steps : list (op * obs)) : Prop :=
   match steps with
   | [] => True
-  | (o, ob) :: r => pool_clause shut prev o ob /\ pool_clauses (next_shut shut o ob) ob r
+  | (o, ob) :: r => pool_clause shut sb prev o ob /\ pool_clauses (next_shut shut o ob) (next_sb sb o ob) ob r
   end.
-
 
 (* instance ids of the model pool; the cloud hands out fresh instance ids *)
 Definition ids (p : wpool) : list N := map w_id (p_workers p).
